@@ -549,17 +549,22 @@ theorem foundAt_snoc_key {root : Val} {q : Pos} {name : Str} {c : Val} {r : Res}
   · cases hk; exact ⟨hpar, hni⟩
   · cases hk
 
-/-- `[new()]` below `name`: `_find` re-resolves `found`, wraps a non-list value **in place**, and
-reports NOT FOUND with the list as parent -/
+/-- `[new()]` below `name`: `_find` re-resolves `found` and reports NOT FOUND — with the list as parent,
+or (fix C04-a: the search writes nothing) for a single value as the miss of `name[new()]` below the
+parent dictionary -/
 theorem find_new_step (fuel : Nat) (root : Val) (entry rl : Bool) (q : Pos) (name : Str) (rest : List Str)
     (kcls : Cls) (nkvs : List (Str × Val)) (old : Val)
     (hp : PlainPos q) (hn : PlainKey name) (hq : getAt root q = some (.dict kcls nkvs))
     (hl : lookup name nkvs = some old) (hf : fuel ≥ 2 * (q.length + 1)) :
     ∃ fnd, findD (fuel + 1) root [] false entry (bracket sNew :: rest) (.at (q ++ [.key name])) rl
         (slash ++ renderPos (q ++ [.key name]))
-      = .ok (if isList old then root else (setAt root q (.dict kcls (kvSet name (.list .n0 [old]) nkvs))).getD root,
-          { parent := .at (q ++ [.key name]), nameIdx := Option.none, value := Val.none, found := fnd,
-            notFound := some (bracket sNew :: rest) }) := by
+      = .ok (root,
+          if isList old then
+            { parent := .at (q ++ [.key name]), nameIdx := Option.none, value := Val.none, found := fnd,
+              notFound := some (bracket sNew :: rest) }
+          else
+            { parent := .at q, nameIdx := Option.none, value := Val.none, found := fnd,
+              notFound := some ((name ++ bracket sNew) :: rest) }) := by
   have hP : getAt root (q ++ [Seg.key name]) = some old := by
     rw [getAt_snoc, hq]; simp [child, hl]
   have hpp : PlainPos (q ++ [Seg.key name]) := hp.append ⟨hn, trivial⟩
@@ -576,9 +581,24 @@ theorem find_new_step (fuel : Nat) (root : Val) (entry rl : Bool) (q : Pos) (nam
     Idx.truthy, Bool.not_true, if_true, htok, hr, hpar, hni, hq, hl]
   cases hlist : isList old with
   | true => simp [childRef, (by decide : sNew ≠ [])]
-  | false => simp [childRef, writeRef, (by decide : sNew ≠ [])]
+  | false => simp [(by decide : sNew ≠ [])]
 
 /-! ### `_add` on the element-creating steps -/
+
+/-- `name[new()]` on a name that holds a single value ("Node is EXISTED", fix C04-a): the value becomes
+the first item of a new list, followed by the placeholder -/
+theorem addStep_existing_new (root root1 : Val) (q : Pos) (c : Cls) (kvs : List (Str × Val)) (name : Str) (old : Val)
+    (hq : getAt root q = some (.dict c kvs)) (hn : PlainKey name) (hl : lookup name kvs = some old)
+    (hs : setAt root q (.dict c (kvSet name (.list .n0 [old, Val.none]) kvs)) = some root1) :
+    addStep root (.at q) Option.none (name ++ bracket sNew) = .ok (root1, .at (q ++ [.key name]), bracket sLast) := by
+  have hsplit := split_bracket name sNew (Or.inr hn) idxExpr_new
+  unfold addStep
+  simp only [pure_bind, hsplit, ok_bind, hn.noBracket, hn.noSlashC, List.contains_nil, Bool.or_self,
+    Bool.false_eq_true, if_false, List.isEmpty_nil, Bool.not_true, valOf_at, hq,
+    isEmpty_false_of_ne hn.ne, Bool.not_false, if_true, hl]
+  rw [modRef_at' root q _ (.dict c kvs) root1 hq]
+  · simp [childRef]; rfl
+  · exact hs
 
 /-- `name[new()]` / `name[0]` on a fresh name: the one-element list with a placeholder -/
 theorem addStep_elem_first (root root1 : Val) (q : Pos) (c : Cls) (kvs : List (Str × Val)) (name e : Str)
@@ -637,6 +657,55 @@ theorem addStep_last_name (root root1 : Val) (P : Pos) (c : Cls) (xs : List Val)
     hx.keyTok.split, hx.noBracket, hx.noSlashC, List.contains_nil, Bool.or_self, List.isEmpty_nil, Bool.not_true,
     valOf_at, hP, (by decide : sLast ≠ sNew), if_true, isEmpty_false_of_ne hx.ne, Bool.not_false,
     isEmpty_false_of_ne hne, Idx.truthy]
+  rw [modRef_at' root P _ (.list c xs) root1 hP]
+  · simp [childRef]; rfl
+  · exact hs
+
+/-- `name[new()]` / `name[0]` after the placeholder (fix C03-b): the placeholder is replaced by
+`{name: [None]}`, the new list has its own placeholder -/
+theorem addStep_last_elem (root root1 : Val) (P : Pos) (c : Cls) (xs : List Val) (m e : Str)
+    (hP : getAt root P = some (.list c xs)) (hne : xs ≠ []) (hm : PlainKey m) (he : e = sNew ∨ e = ['0'])
+    (hs : setAt root P (.list c (xs.dropLast ++ [.dict .n0 [(m, placeholderList)]])) = some root1) :
+    addStep root (.at P) (some (bracket sLast)) (m ++ bracket e)
+      = .ok (root1, .at (P ++ [.idx (xs.length - 1)] ++ [.key m]), bracket sLast) := by
+  have hie : IdxExpr e := by
+    rcases he with rfl | rfl
+    · exact idxExpr_new
+    · exact (natStr_idxExpr 0)
+  have hsplit := split_bracket m e (Or.inr hm) hie
+  have hne' : e.isEmpty = false := isEmpty_false_of_ne hie.ne
+  have hcond : (decide (Idx.str e ≠ Idx.str sNew) && decide (Idx.str e ≠ Idx.str ['0'])) = false := by
+    rcases he with rfl | rfl <;> simp
+  unfold addStep
+  simp only [isEmpty_false_of_ne (bracket_ne_nil _), Bool.false_eq_true, if_false, split_bracket_last, ok_bind,
+    hsplit, hm.noBracket, hm.noSlashC, List.contains_nil, Bool.or_self, List.isEmpty_nil, Bool.not_true,
+    valOf_at, hP, (by decide : sLast ≠ sNew), if_true, isEmpty_false_of_ne hm.ne, Bool.not_false,
+    isEmpty_false_of_ne hne, Idx.truthy, hne', Bool.true_and, Bool.and_assoc, hcond]
+  rw [modRef_at' root P _ (.list c xs) root1 hP]
+  · simp [childRef]; rfl
+  · exact hs
+
+/-- `[new()]` / `[0]` after the placeholder (fix C03-b): the placeholder is replaced by `[None]` -/
+theorem addStep_last_idx (root root1 : Val) (P : Pos) (c : Cls) (xs : List Val) (e : Str)
+    (hP : getAt root P = some (.list c xs)) (hne : xs ≠ []) (he : e = sNew ∨ e = ['0'])
+    (hs : setAt root P (.list c (xs.dropLast ++ [placeholderList])) = some root1) :
+    addStep root (.at P) (some (bracket sLast)) (bracket e)
+      = .ok (root1, .at (P ++ [.idx (xs.length - 1)]), bracket sLast) := by
+  have hie : IdxExpr e := by
+    rcases he with rfl | rfl
+    · exact idxExpr_new
+    · exact (natStr_idxExpr 0)
+  have hsplit : splitNameIndex (bracket e) = .ok ([], .str e) := by
+    have := split_bracket [] e (Or.inl rfl) hie
+    simpa using this
+  have hne' : e.isEmpty = false := isEmpty_false_of_ne hie.ne
+  have hcond : (decide (Idx.str e ≠ Idx.str sNew) && decide (Idx.str e ≠ Idx.str ['0'])) = false := by
+    rcases he with rfl | rfl <;> simp
+  unfold addStep
+  simp only [isEmpty_false_of_ne (bracket_ne_nil _), Bool.false_eq_true, if_false, split_bracket_last, ok_bind,
+    hsplit, List.contains_nil, Bool.or_self, List.isEmpty_nil, Bool.not_true,
+    valOf_at, hP, (by decide : sLast ≠ sNew), if_true,
+    isEmpty_false_of_ne hne, Idx.truthy, hne', Bool.not_false, Bool.true_and, Bool.and_assoc, hcond]
   rw [modRef_at' root P _ (.list c xs) root1 hP]
   · simp [childRef]; rfl
   · exact hs
@@ -794,20 +863,24 @@ theorem setItem_new_existing (cls : Cls) (kvs : List (Str × Val)) (q : Pos) (kc
   have hfind := hwalk
   rw [List.nil_append, find_keyidx_step' (f + 1) _ e' true q _ _ name sNew tail kcls nkvs old hget hsplit hn.ne hn.notUp
     hn.keyTok.notStar hl, renderPos_snoc_key, hnew] at hfind
-  refine setItem_of_find (by simp [slash, startsWith, List.append_assoc]) (by simp [hasPathChar, slash])
-    (tokenize_elem_path q hp hn cleanIdx_new tail ht) hfind rfl (by simp) ?_
   by_cases hlist : isList old = true
   · obtain ⟨c, xs, rfl⟩ := isList_inv hlist
-    simp only [isList, if_true]
-    exact addStores_new_on_list _ _ c xs tail v t' hP ht hset
-  · simp only [hlist]
-    -- the wrap, seen as a write at `name`
-    rw [← setAt_snoc q _ (.key name) (.list .n0 [old]) _ _ hget (by simp [setChild])]
-    obtain ⟨root0, hs0⟩ := setAt_isSome (q ++ [Seg.key name]) (.dict cls kvs) _ (.list .n0 [old]) hP
-    rw [hs0]
-    simp only [Option.getD_some]
-    apply addStores_new_on_list root0 _ .n0 [old] tail v t' (getAt_setAt_same _ _ root0 _ hs0 (fun _ _ => trivial)) ht
-    rw [setAt_overwrite _ _ root0 _ _ hs0]
+    simp only [isList, if_true] at hfind
+    exact setItem_of_find (by simp [slash, startsWith, List.append_assoc]) (by simp [hasPathChar, slash])
+      (tokenize_elem_path q hp hn cleanIdx_new tail ht) hfind rfl (by simp)
+      (addStores_new_on_list _ _ c xs tail v t' hP ht hset)
+  · simp only [hlist, Bool.false_eq_true, if_false] at hfind
+    refine setItem_of_find (by simp [slash, startsWith, List.append_assoc]) (by simp [hasPathChar, slash])
+      (tokenize_elem_path q hp hn cleanIdx_new tail ht) hfind rfl (by simp) ?_
+    -- "Node is EXISTED": `_add` converts the single value and appends the placeholder in one step
+    obtain ⟨root1, hs1⟩ := setAt_isSome q (.dict cls kvs) _ (.dict kcls (kvSet name (.list .n0 [old, Val.none]) nkvs)) hget
+    refine addStores_step (addStep_existing_new _ root1 q kcls nkvs name old hget hn hl hs1) ?_
+    have hs1' : setAt (.dict cls kvs) (q ++ [Seg.key name]) (.list .n0 [old, Val.none]) = some root1 := by
+      rw [setAt_snoc q _ (.key name) _ _ (.dict kcls (kvSet name (.list .n0 [old, Val.none]) nkvs)) hget (by simp [setChild])]
+      exact hs1
+    apply cont_placeholder root1 (q ++ [Seg.key name]) .n0 [old] tail v t'
+      (getAt_setAt_same _ _ root1 _ hs1' (fun _ _ => trivial)) ht
+    rw [setAt_overwrite _ _ root1 _ _ hs1']
     rw [appendTo_nonlist (by simpa using hlist)] at hset
     exact hset
 
@@ -1097,6 +1170,52 @@ def CStep.first : CStep → Prop
   | .elem n _ => PlainKey n
   | .idx _ => True
 
+/-- later steps, widened (after fix C03-b): also a bare `[new()]` / `[0]` — an element created inside the
+element the previous step has created (`n[new()][new()]`, `n[0][0]/m`) -/
+def CStep.laterW : CStep → Prop
+  | .name n => PlainKey n
+  | .elem n e => PlainKey n ∧ (e = sNew ∨ e = ['0'])
+  | .idx e => e = sNew ∨ e = ['0']
+
+def CStep.isIdx : CStep → Bool
+  | .idx _ => true
+  | _ => false
+
+/-- the whole creation grammar: a bare index step never directly follows a *name* step (the text of
+`/n` followed by `[e]` is the one of the step `n[e]`, written `.elem n e`) -/
+def GW : List CStep → Prop
+  | [] => True
+  | [_] => True
+  | s :: s2 :: r => (s.isName = true → s2.isIdx = false) ∧ GW (s2 :: r)
+
+theorem CStep.laterW_of_later {s : CStep} (h : s.later) : s.laterW := by
+  cases s with
+  | name n => exact h
+  | elem n e => exact h
+  | idx e => exact absurd h (by simp [CStep.later])
+
+theorem CStep.later_of_laterW {s : CStep} (h : s.laterW) (hi : s.isIdx = false) : s.later := by
+  cases s with
+  | name n => exact h
+  | elem n e => exact h
+  | idx e => simp [CStep.isIdx] at hi
+
+theorem CStep.later_notIdx {s : CStep} (h : s.later) : s.isIdx = false := by
+  cases s with
+  | name n => rfl
+  | elem n e => rfl
+  | idx e => exact absurd h (by simp [CStep.later])
+
+theorem GW.tail {s : CStep} {r : List CStep} (h : GW (s :: r)) : GW r := by
+  cases r with
+  | nil => trivial
+  | cons s2 r' => exact h.2
+
+/-- paths without later bare index steps (the grammar before fix C03-b) are inside the whole grammar -/
+theorem GW_of_later : ∀ (s : CStep) (steps : List CStep), (∀ x ∈ steps, x.later) → GW (s :: steps)
+  | _, [], _ => trivial
+  | _, s2 :: r, h => ⟨fun _ => CStep.later_notIdx (h s2 (by simp)), GW_of_later s2 r (fun x hx => h x (by simp [hx]))⟩
+
 /-- the honoured grammar: every element-creating step is the last step or is followed by a name -/
 def GOk : List CStep → Prop
   | [] => True
@@ -1186,7 +1305,7 @@ mutual
 theorem add_store_steps (steps : List CStep) (root : Val) (q : Pos) (c : Cls) (kvs : List (Str × Val)) (n : Str)
     (c' : Cls) (kvs' : List (Str × Val)) (s : CStep) (v t' : Val)
     (hq : getAt root q = some (.dict c kvs)) (hn : PlainKey n) (hl0 : lookup n kvs = some (.dict c' kvs'))
-    (hs : s.later) (hsteps : ∀ x ∈ steps, x.later) (hg : GOk (s :: steps))
+    (hs : s.later) (hsteps : ∀ x ∈ steps, x.laterW) (hg : GW (s :: steps))
     (hl : lookup s.nameOf kvs' = Option.none)
     (hset : setAt root (q ++ [.key n, .key s.nameOf]) (slotVal s steps v) = some t') :
     AddStores root (.at q) (some n) (stepTok s :: steps.map stepTok) v t' := by
@@ -1219,7 +1338,7 @@ theorem add_store_steps (steps : List CStep) (root : Val) (q : Pos) (c : Cls) (k
         cases steps with
         | nil => exact absurd rfl hne
         | cons s2 r => exact ⟨s2, r, rfl⟩
-      have hs2 := hsteps s2 (by simp)
+      have hs2 : s2.later := CStep.later_of_laterW (hsteps s2 (by simp)) (hg.1 rfl)
       simp only [List.map_cons]
       apply add_store_steps r root1 (q ++ [Seg.key n]) c' (kvSet m emptyN0Dict kvs') m .n0 [] s2 v t'
         hg1 hm (lookup_kvSet_same _ _ _) hs2 (fun x hx => hsteps x (by simp [hx])) hg.tail rfl
@@ -1239,7 +1358,7 @@ theorem add_store_steps (steps : List CStep) (root : Val) (q : Pos) (c : Cls) (k
       exact hs1
     refine addStores_step hstep ?_
     apply cont_steps steps root1 (q ++ [Seg.key n] ++ [Seg.key m]) .n0 [] v t'
-      (getAt_setAt_same _ root root1 _ hs1' (fun _ _ => trivial)) hsteps hg.tail hg.headName_of_elem
+      (getAt_setAt_same _ root root1 _ hs1' (fun _ _ => trivial)) hsteps hg.tail
     rw [setAt_overwrite _ root root1 _ _ hs1', ← hassoc]
     exact hset
 termination_by (steps.length, 1)
@@ -1247,8 +1366,8 @@ termination_by (steps.length, 1)
 /-- after the placeholder has been appended to the list at `P`: the store overwrites it, or the
 following steps (a name first) replace it by what they create -/
 theorem cont_steps (steps : List CStep) (root1 : Val) (P : Pos) (c : Cls) (ys : List Val) (v t' : Val)
-    (hP : getAt root1 P = some (.list c (ys ++ [Val.none]))) (hsteps : ∀ x ∈ steps, x.later) (hg : GOk steps)
-    (hh : HeadName steps) (hset : setAt root1 P (.list c (ys ++ [fill steps v])) = some t') :
+    (hP : getAt root1 P = some (.list c (ys ++ [Val.none]))) (hsteps : ∀ x ∈ steps, x.laterW) (hg : GW steps)
+    (hset : setAt root1 P (.list c (ys ++ [fill steps v])) = some t') :
     Cont root1 (.at P) (bracket sLast) (steps.map stepTok) v t' := by
   cases steps with
   | nil =>
@@ -1256,14 +1375,54 @@ theorem cont_steps (steps : List CStep) (root1 : Val) (P : Pos) (c : Cls) (ys : 
     apply storeAt_last root1 t' P c (ys ++ [Val.none]) v hP (by simp)
     simpa [fill] using hset
   | cons s ms =>
+    have hlen : (ys ++ [Val.none]).length - 1 = ys.length := by simp
+    -- a write of `D` at the element that replaces the placeholder, seen from `root1`
+    have hwrite' : ∀ (root2 Z : Val), setAt root1 P (.list c (ys ++ [Z])) = some root2 →
+        ∀ D, setAt root2 (P ++ [Seg.idx ys.length]) D = setAt root1 P (.list c (ys ++ [D])) := by
+      intro root2 Z hs2 D
+      rw [setAt_snoc P root2 (.idx ys.length) D _ _ (getAt_setAt_same P root1 root2 _ hs2 (fun _ _ => trivial))
+        (setChild_snoc c ys _ D)]
+      exact setAt_overwrite P root1 root2 _ _ hs2
     cases s with
-    | elem m e => simp [HeadName, CStep.isName] at hh
-    | idx e => simp [HeadName, CStep.isName] at hh
+    | elem m e =>
+      -- fix C03-b: `{m: [None]}` replaces the placeholder, the new list continues with its own placeholder
+      obtain ⟨hm, he⟩ : PlainKey m ∧ (e = sNew ∨ e = ['0']) := hsteps (.elem m e) (by simp)
+      obtain ⟨root2, hs2⟩ := setAt_isSome P root1 _ (.list c (ys ++ [.dict .n0 [(m, placeholderList)]])) hP
+      have hstep := addStep_last_elem root1 root2 P c (ys ++ [Val.none]) m e hP (by simp) hm he (by simpa using hs2)
+      rw [hlen] at hstep
+      have hg2 : getAt root2 (P ++ [Seg.idx ys.length]) = some (.dict .n0 [(m, placeholderList)]) := by
+        rw [getAt_setAt_below root1 root2 _ P _ hs2]
+        simp [getAt, child]
+      have hg3 : getAt root2 (P ++ [Seg.idx ys.length] ++ [Seg.key m]) = some (.list .n0 ([] ++ [Val.none])) := by
+        rw [getAt_snoc, hg2]; simp [child, lookup, placeholderList]
+      refine ⟨fun h => by simp at h, fun _ => ?_⟩
+      simp only [List.map_cons, stepTok]
+      refine addStores_step hstep ?_
+      apply cont_steps ms root2 (P ++ [Seg.idx ys.length] ++ [Seg.key m]) .n0 [] v t' hg3
+        (fun y hy => hsteps y (by simp [hy])) hg.tail
+      rw [setAt_snoc _ root2 (.key m) _ _ (.dict .n0 [(m, .list .n0 ([] ++ [fill ms v]))]) hg2
+        (by simp [setChild, kvSet]), hwrite' root2 _ hs2]
+      simpa [fill] using hset
+    | idx e =>
+      -- fix C03-b: `[None]` replaces the placeholder
+      have he : e = sNew ∨ e = ['0'] := hsteps (.idx e) (by simp)
+      obtain ⟨root2, hs2⟩ := setAt_isSome P root1 _ (.list c (ys ++ [placeholderList])) hP
+      have hstep := addStep_last_idx root1 root2 P c (ys ++ [Val.none]) e hP (by simp) he (by simpa using hs2)
+      rw [hlen] at hstep
+      have hg2 : getAt root2 (P ++ [Seg.idx ys.length]) = some (.list .n0 ([] ++ [Val.none])) := by
+        rw [getAt_setAt_below root1 root2 _ P _ hs2]
+        simp [getAt, child, placeholderList]
+      refine ⟨fun h => by simp at h, fun _ => ?_⟩
+      simp only [List.map_cons, stepTok]
+      refine addStores_step hstep ?_
+      apply cont_steps ms root2 (P ++ [Seg.idx ys.length]) .n0 [] v t' hg2
+        (fun y hy => hsteps y (by simp [hy])) hg.tail
+      rw [hwrite' root2 _ hs2]
+      simpa [fill] using hset
     | name x =>
     have hx : PlainKey x := hsteps (.name x) (by simp)
     obtain ⟨root2, hs2⟩ := setAt_isSome P root1 _ (.list c (ys ++ [.dict .n0 [(x, emptyN0Dict)]])) hP
     have hstep := addStep_last_name root1 root2 P c (ys ++ [Val.none]) x hP (by simp) hx (by simpa using hs2)
-    have hlen : (ys ++ [Val.none]).length - 1 = ys.length := by simp
     rw [hlen] at hstep
     have hg2 : getAt root2 (P ++ [Seg.idx ys.length]) = some (.dict .n0 [(x, emptyN0Dict)]) := by
       rw [getAt_setAt_below root1 root2 _ P _ hs2]
@@ -1288,7 +1447,7 @@ theorem cont_steps (steps : List CStep) (root1 : Val) (P : Pos) (c : Cls) (ys : 
         cases ms with
         | nil => exact absurd rfl hne
         | cons s2 r => exact ⟨s2, r, rfl⟩
-      have hs2' := hsteps s2 (by simp)
+      have hs2' : s2.later := CStep.later_of_laterW (hsteps s2 (by simp)) (hg.1 rfl)
       simp only [List.map_cons]
       apply add_store_steps r root2 (P ++ [Seg.idx ys.length]) .n0 [(x, emptyN0Dict)] x .n0 [] s2 v t' hg2 hx
         (by simp [lookup, emptyN0Dict]) hs2' (fun y hy => hsteps y (by simp [hy])) hg.tail rfl
@@ -1337,21 +1496,21 @@ theorem tokenize_then_steps : ∀ (steps : List CStep) (T : Str), (∀ x ∈ ste
     simp
 
 theorem addStores_new_on_list' (root0 : Val) (P : Pos) (c0 : Cls) (xs0 : List Val) (steps : List CStep) (v t' : Val)
-    (hP0 : getAt root0 P = some (.list c0 xs0)) (hsteps : ∀ x ∈ steps, x.later) (hg : GOk steps)
-    (hh : HeadName steps) (hset : setAt root0 P (.list c0 (xs0 ++ [fill steps v])) = some t') :
+    (hP0 : getAt root0 P = some (.list c0 xs0)) (hsteps : ∀ x ∈ steps, x.laterW) (hg : GW steps)
+    (hset : setAt root0 P (.list c0 (xs0 ++ [fill steps v])) = some t') :
     AddStores root0 (.at P) Option.none (bracket sNew :: steps.map stepTok) v t' := by
   obtain ⟨root1, hs1⟩ := setAt_isSome P root0 _ (.list c0 (xs0 ++ [Val.none])) hP0
   refine addStores_step (addStep_new_list root0 root1 P c0 xs0 hP0 hs1) ?_
-  apply cont_steps steps root1 P c0 xs0 v t' (getAt_setAt_same P root0 root1 _ hs1 (fun _ _ => trivial)) hsteps hg hh
+  apply cont_steps steps root1 P c0 xs0 v t' (getAt_setAt_same P root0 root1 _ hs1 (fun _ _ => trivial)) hsteps hg
   rw [setAt_overwrite P root0 root1 _ _ hs1]; exact hset
 
 theorem addStores_len_on_list' (root0 : Val) (P : Pos) (c0 : Cls) (xs0 : List Val) (steps : List CStep) (v t' : Val)
-    (hP0 : getAt root0 P = some (.list c0 xs0)) (hsteps : ∀ x ∈ steps, x.later) (hg : GOk steps)
-    (hh : HeadName steps) (hset : setAt root0 P (.list c0 (xs0 ++ [fill steps v])) = some t') :
+    (hP0 : getAt root0 P = some (.list c0 xs0)) (hsteps : ∀ x ∈ steps, x.laterW) (hg : GW steps)
+    (hset : setAt root0 P (.list c0 (xs0 ++ [fill steps v])) = some t') :
     AddStores root0 (.at P) (some (bracket (natStr xs0.length))) (bracket (natStr xs0.length) :: steps.map stepTok) v t' := by
   obtain ⟨root1, hs1⟩ := setAt_isSome P root0 _ (.list c0 (xs0 ++ [Val.none])) hP0
   refine addStores_step (addStep_len_list root0 root1 P c0 xs0 hP0 hs1) ?_
-  apply cont_steps steps root1 P c0 xs0 v t' (getAt_setAt_same P root0 root1 _ hs1 (fun _ _ => trivial)) hsteps hg hh
+  apply cont_steps steps root1 P c0 xs0 v t' (getAt_setAt_same P root0 root1 _ hs1 (fun _ _ => trivial)) hsteps hg
   rw [setAt_overwrite P root0 root1 _ _ hs1]; exact hset
 
 /-- what `_find` returns for `…/name[new()]/…` when `name` exists (any further tokens) -/
@@ -1360,10 +1519,13 @@ theorem find_new_existing (cls : Cls) (kvs : List (Str × Val)) (q : Pos) (kcls 
     (hp : PlainPos q) (hget : getAt (.dict cls kvs) q = some (.dict kcls nkvs)) (hn : PlainKey name)
     (hl : lookup name nkvs = some old) (hf : fuel ≥ 4 * (q.length + 1)) :
     ∃ fnd, findD fuel (.dict cls kvs) [] false true (mergedToks q ++ (name ++ bracket sNew) :: tt) (.at []) true slash
-      = .ok (if isList old then .dict cls kvs
-             else (setAt (.dict cls kvs) q (.dict kcls (kvSet name (.list .n0 [old]) nkvs))).getD (.dict cls kvs),
-          { parent := .at (q ++ [.key name]), nameIdx := Option.none, value := Val.none, found := fnd,
-            notFound := some (bracket sNew :: tt) }) := by
+      = .ok (.dict cls kvs,
+          if isList old then
+            { parent := .at (q ++ [.key name]), nameIdx := Option.none, value := Val.none, found := fnd,
+              notFound := some (bracket sNew :: tt) }
+          else
+            { parent := .at q, nameIdx := Option.none, value := Val.none, found := fnd,
+              notFound := some ((name ++ bracket sNew) :: tt) }) := by
   have hlen := mergedToks_length_le q
   have hsplit := split_bracket name sNew (Or.inr hn) idxExpr_new
   obtain ⟨f', e', h1, _, hwalk⟩ := find_walk (.dict cls kvs) true (spellsF_merged q _ _ hp hget)
@@ -1426,10 +1588,12 @@ theorem tokenize_steps_path (q : Pos) (hp : PlainPos q) (s : CStep) (steps : Lis
 is a name step or a named element-creating step below the existing dict node `q`, and whose later
 steps are fresh names / `n[new()]` / `n[0]` with every element-creating step last or followed by a
 name: `d[path] = v` yields exactly the reference semantics `createIn`. -/
-theorem setItem_create_steps (cls : Cls) (kvs : List (Str × Val)) (q : Pos) (kcls : Cls) (nkvs : List (Str × Val))
+theorem setItem_create_stepsW (cls : Cls) (kvs : List (Str × Val)) (q : Pos) (kcls : Cls) (nkvs : List (Str × Val))
     (s : CStep) (steps : List CStep) (v cur' t' : Val) (fuel : Nat)
     (hp : PlainPos q) (hget : getAt (.dict cls kvs) q = some (.dict kcls nkvs))
-    (hs : PlainKey s.nameOf) (hidx : ∀ e, s ≠ .idx e) (hsteps : ∀ x ∈ steps, x.later) (hg : GOk (s :: steps))
+    (hs : PlainKey s.nameOf) (hidx : ∀ e, s ≠ .idx e) (hsteps : ∀ x ∈ steps, x.laterW) (hg : GW (s :: steps))
+    (htok : tokenize (slash ++ renderPos q ++ (s :: steps).flatMap renderCStep)
+      = mergedToks q ++ stepTok s :: steps.map stepTok)
     (hcreate : createIn (.dict kcls nkvs) (s :: steps) v = some cur')
     (hset : setAt (.dict cls kvs) q cur' = some t') (hf : fuel ≥ 4 * (q.length + 1)) :
     setItem fuel (.dict cls kvs) (slash ++ renderPos q ++ (s :: steps).flatMap renderCStep) v = (t', .ok ()) := by
@@ -1451,7 +1615,6 @@ theorem setItem_create_steps (cls : Cls) (kvs : List (Str × Val)) (q : Pos) (kc
     · rename_i hl
       cases hcreate
       rw [← hslot] at hset
-      have htok := tokenize_steps_path q hp (.name n) steps hs (by intro _ _ h; cases h) hidx hsteps
       have hfind := find_walk_miss (.dict cls kvs) true (spellsF_merged q _ _ hp hget) n n .none (steps.map stepTok)
         hs.keyTok.split hs.ne hs.notUp hs.keyTok.notStar hl fuel [] slash true rfl (by omega)
       rw [List.nil_append] at hfind
@@ -1475,7 +1638,7 @@ theorem setItem_create_steps (cls : Cls) (kvs : List (Str × Val)) (q : Pos) (kc
           cases steps with
           | nil => exact absurd rfl hne
           | cons s2 r => exact ⟨s2, r, rfl⟩
-        have hs2 := hsteps s2 (by simp)
+        have hs2 : s2.later := CStep.later_of_laterW (hsteps s2 (by simp)) (hg.1 rfl)
         simp only [List.map_cons]
         apply add_store_steps r root1 q kcls (kvSet n emptyN0Dict nkvs) n .n0 [] s2 v t' hg1 hs
           (lookup_kvSet_same _ _ _) hs2 (fun x hx => hsteps x (by simp [hx])) hg.tail rfl
@@ -1485,7 +1648,6 @@ theorem setItem_create_steps (cls : Cls) (kvs : List (Str × Val)) (q : Pos) (kc
     · cases hcreate
   | elem n e =>
     simp only [CStep.nameOf] at hs hslot
-    have hh : HeadName steps := hg.headName_of_elem
     simp only [createIn] at hcreate
     split at hcreate
     · -- fresh name
@@ -1494,8 +1656,6 @@ theorem setItem_create_steps (cls : Cls) (kvs : List (Str × Val)) (q : Pos) (kc
       · rename_i he
         cases hcreate
         rw [← hslot] at hset
-        have htok := tokenize_steps_path q hp (.elem n e) steps hs
-          (by intro _ _ h; cases h; exact cleanIdx_of_new_or_zero he) hidx hsteps
         have hie : IdxExpr e := by
           rcases he with rfl | rfl
           · exact idxExpr_new
@@ -1510,7 +1670,7 @@ theorem setItem_create_steps (cls : Cls) (kvs : List (Str × Val)) (q : Pos) (kc
         refine addStores_step (addStep_elem_first _ root1 q kcls nkvs n e hget hs he hl hs1) ?_
         have hs1' : setAt (.dict cls kvs) (q ++ [Seg.key n]) (.list .n0 [Val.none]) = some root1 := by rw [hslot]; exact hs1
         apply cont_steps steps root1 (q ++ [Seg.key n]) .n0 [] v t'
-          (getAt_setAt_same _ _ root1 _ hs1' (fun _ _ => trivial)) hsteps hg.tail hh
+          (getAt_setAt_same _ _ root1 _ hs1' (fun _ _ => trivial)) hsteps hg.tail
         rw [setAt_overwrite _ _ root1 _ _ hs1']
         exact hset
       · cases hcreate
@@ -1523,22 +1683,21 @@ theorem setItem_create_steps (cls : Cls) (kvs : List (Str × Val)) (q : Pos) (kc
         subst he
         cases hcreate
         rw [← hslot] at hset
-        have htok := tokenize_steps_path q hp (.elem n sNew) steps hs
-          (by intro _ _ h; cases h; exact cleanIdx_new) hidx hsteps
         obtain ⟨fnd, hfind⟩ := find_new_existing cls kvs q kcls nkvs n old (steps.map stepTok) fuel hp hget hs hl hf
-        refine setItem_of_find hqm hpc htok hfind rfl (by simp) ?_
         by_cases hlist : isList old = true
         · obtain ⟨c, xs, rfl⟩ := isList_inv hlist
-          simp only [isList, if_true]
-          exact addStores_new_on_list' _ _ c xs steps v t' hP hsteps hg.tail hh hset
-        · simp only [hlist]
-          rw [← hslot]
-          obtain ⟨root0, hs0⟩ := setAt_isSome (q ++ [Seg.key n]) (.dict cls kvs) _ (.list .n0 [old]) hP
-          rw [hs0]
-          simp only [Option.getD_some]
-          apply addStores_new_on_list' root0 _ .n0 [old] steps v t'
-            (getAt_setAt_same _ _ root0 _ hs0 (fun _ _ => trivial)) hsteps hg.tail hh
-          rw [setAt_overwrite _ _ root0 _ _ hs0]
+          simp only [isList, if_true] at hfind
+          exact setItem_of_find hqm hpc htok hfind rfl (by simp)
+            (addStores_new_on_list' _ _ c xs steps v t' hP hsteps hg.tail hset)
+        · simp only [hlist, Bool.false_eq_true, if_false] at hfind
+          refine setItem_of_find hqm hpc htok hfind rfl (by simp) ?_
+          obtain ⟨root1, hs1⟩ := setAt_isSome q (.dict cls kvs) _ (.dict kcls (kvSet n (.list .n0 [old, Val.none]) nkvs)) hget
+          refine addStores_step (addStep_existing_new _ root1 q kcls nkvs n old hget hs hl hs1) ?_
+          have hs1' : setAt (.dict cls kvs) (q ++ [Seg.key n]) (.list .n0 [old, Val.none]) = some root1 := by
+            rw [hslot]; exact hs1
+          apply cont_steps steps root1 (q ++ [Seg.key n]) .n0 [old] v t'
+            (getAt_setAt_same _ _ root1 _ hs1' (fun _ _ => trivial)) hsteps hg.tail
+          rw [setAt_overwrite _ _ root1 _ _ hs1']
           rw [appendTo_nonlist (by simpa using hlist)] at hset
           exact hset
       · split at hcreate
@@ -1548,13 +1707,41 @@ theorem setItem_create_steps (cls : Cls) (kvs : List (Str × Val)) (q : Pos) (kc
             subst he
             cases hcreate
             rw [← hslot] at hset
-            have htok := tokenize_steps_path q hp (.elem n (natStr xs.length)) steps hs
-              (by intro _ _ h; cases h; exact cleanIdx_nat _) hidx hsteps
             obtain ⟨fnd, hfind⟩ := find_len_existing cls kvs q kcls nkvs n c' xs (steps.map stepTok) fuel hp hget hs hl
               (by omega)
             refine setItem_of_find hqm hpc htok hfind rfl (by simp) ?_
-            exact addStores_len_on_list' _ _ c' xs steps v t' hP hsteps hg.tail hh hset
+            exact addStores_len_on_list' _ _ c' xs steps v t' hP hsteps hg.tail hset
           · cases hcreate
         · cases hcreate
+
+/-- the index text of a named element-creating first step that `createIn` accepts is clean -/
+theorem createIn_elem_clean {cur : Val} {n e : Str} {r : List CStep} {v cur' : Val}
+    (h : createIn cur (.elem n e :: r) v = some cur') : CleanIdx e := by
+  cases cur <;> simp only [createIn] at h <;> try cases h
+  split at h
+  · split at h
+    · rename_i he; exact cleanIdx_of_new_or_zero he
+    · cases h
+  · split at h
+    · rename_i he; subst he; exact cleanIdx_new
+    · split at h
+      · split at h
+        · rename_i he; subst he; exact cleanIdx_nat _
+        · cases h
+      · cases h
+
+/-- **C03 (grammar before fix C03-b, first step below a dict)**: the case of `setItem_create_stepsW`
+without later bare index steps, with the tokenisation discharged -/
+theorem setItem_create_steps (cls : Cls) (kvs : List (Str × Val)) (q : Pos) (kcls : Cls) (nkvs : List (Str × Val))
+    (s : CStep) (steps : List CStep) (v cur' t' : Val) (fuel : Nat)
+    (hp : PlainPos q) (hget : getAt (.dict cls kvs) q = some (.dict kcls nkvs))
+    (hs : PlainKey s.nameOf) (hidx : ∀ e, s ≠ .idx e) (hsteps : ∀ x ∈ steps, x.later)
+    (hcreate : createIn (.dict kcls nkvs) (s :: steps) v = some cur')
+    (hset : setAt (.dict cls kvs) q cur' = some t') (hf : fuel ≥ 4 * (q.length + 1)) :
+    setItem fuel (.dict cls kvs) (slash ++ renderPos q ++ (s :: steps).flatMap renderCStep) v = (t', .ok ()) :=
+  setItem_create_stepsW cls kvs q kcls nkvs s steps v cur' t' fuel hp hget hs hidx
+    (fun x hx => CStep.laterW_of_later (hsteps x hx)) (GW_of_later s steps hsteps)
+    (tokenize_steps_path q hp s steps hs (fun n e h => by subst h; exact createIn_elem_clean hcreate) hidx hsteps)
+    hcreate hset hf
 
 end N0.XPath
